@@ -140,7 +140,7 @@ def run_shard(desc):
         nbucket = 'many' if len(intent['announce']) + len(intent['withdraw']) > 3 else 'few'
         cls = f'{sk["name"]}:{kind}'
         try:
-            msg = Message.unpack(2, body, neg)
+            msg = Message.unpack(2, memoryview(body), neg)  # a memoryview, as Connection.reader hands the body over
             collection = msg if getattr(msg, 'IS_EOR', False) else msg.data
             text = Response.JSON(json_version).update(nb, 'receive', collection, b'', b'', neg)
         except Notify as n:
